@@ -11,7 +11,8 @@ META = {
     "2^(n-1) compositions for the 24..28-byte frames in thorough); for longer frames every subset of the boundary cut set "
     "{1,2,3,4,5,23,24,25,255,256,257,511,512,n-1}; all-one-byte delivery; peer close / socket error / timeout after every byte "
     "count of the boundary set, combined with <=1 further cut; send: every pattern of <=3 partial sends, a zero return and an "
-    "error after each partial. An execution = one call of the real Socket.receive/Socket.send over the scripted OS socket. "
+    "error after each partial; histories of two receives on ONE Socket object: the first complete or cut by a timeout after k in {0,1,2,3,4,5,23,24,n-1} bytes, "
+    "the second a complete frame under <=2 cuts (3 x 4 frame-length pairs). An execution = one call of the real Socket.receive/Socket.send over the scripted OS socket. "
     "Non-trivial = at least one cut or fault; distinct = distinct (frame, choice vector).",
     "explanation": "stateless deviation-bounded search (iterative deviation bounding) over the network's choices",
     "assumptions": [
@@ -77,6 +78,44 @@ def recv_scenario(fr, cutset, rx_end="timeout", trunc=None):
     return scenario
 
 
+def recvseq_scenario(first, k, fr2, cutset):
+    """Two receives on ONE Socket: the first gets first[:k] (k None: the whole frame) and, if cut short, ends in a timeout;
+    then frame fr2 arrives and is received under chunk choices.  Outcome: what the second receive returned."""
+    import pycomm3.socket_ as S
+    from pycomm3.exceptions import CommError
+
+    def scenario(ctx):
+        w = net.World(SinkTarget(), ctx, chunk_choices=True, cutset=cutset, rx_end="timeout", io_budget=len(first) + len(fr2) + 16)
+        with w:
+            sk = S.Socket()
+            sk.connect("10.0.0.1", 44818)
+            sk.sock.rx += first if k is None else first[:k]
+            w.chunk_choices = False
+            try:
+                r1 = sk.receive()
+                one = "frame" if r1 == first and k is None else "wrong-first"
+            except CommError:
+                one = "CommError"
+            except BudgetExceeded:
+                return "hang-first"
+            except Exception as e:  # noqa
+                return "foreign-first:" + type(e).__name__
+            if one != ("frame" if k is None else "CommError"):
+                return "first:" + one
+            w.chunk_choices = True
+            sk.sock.rx += fr2
+            try:
+                r = sk.receive()
+                return "frame" if r == fr2 else "wrong-bytes:%d" % len(r)
+            except CommError:
+                return "CommError"
+            except BudgetExceeded:
+                return "hang"
+            except Exception as e:  # noqa
+                return "foreign:" + type(e).__name__
+    return scenario
+
+
 def send_scenario(msg, cutset, fault=None):
     import pycomm3.socket_ as S
     from pycomm3.exceptions import CommError
@@ -108,6 +147,7 @@ def shards(tier, seed):
         sh.append(("recv", L))
         sh.append(("recvfault", L))
     sh += [("send", n) for n in (1, 2, 3, 24, 28, 64, 300, 4002)]
+    sh += [("recvseq", L1, L2) for L1 in (0, 4, 300) for L2 in (0, 3, 40, 256)]
     if tier == "thorough":
         # every composition of the 24/25/26-byte frames, sharded by the size of the first chunk
         sh += [("allcomp", L, first) for L in (0, 1, 2) for first in range(24 + L)]
@@ -183,6 +223,18 @@ def run_shard(shard, tier, seed):
                 run_explore(rep, f"receive L={L} {end} after {k} bytes", sc, 1, {"CommError"},
                             {"op": "receive-fault", "L": L, "cls": end, "mode": "fault", "end": end, "k": k, "seed": seed})
         rep.sample({"frame_len": n, "fault_points": len(points), "kinds": ["close", "error", "timeout"]})
+    elif kind == "recvseq":
+        # history of two receives on one Socket object: whatever happened to the first (complete, or cut after k bytes by a timeout),
+        # the second must return exactly the second frame for every segmentation
+        L1, L2 = shard[1], shard[2]
+        f1, f2 = frame(L1, seed & 0xFF), frame(L2, (seed + 77) & 0xFF)
+        n2 = len(f2)
+        cutset = None if n2 <= 64 else set(boundary_cuts(n2))
+        ks = [None] + sorted({0, 1, 2, 3, 4, 5, 23, 24, len(f1) - 1} & set(range(len(f1))))
+        for k in ks:
+            run_explore(rep, f"receive L={L2} after a receive of L={L1} " + ("completed" if k is None else f"timed out after {k} bytes"), recvseq_scenario(f1, k, f2, cutset), 2, {"frame"},
+                        {"op": "receive-sequence", "L": L2, "L1": L1, "k": k, "cls": "after-complete" if k is None else "after-failed", "mode": "recvseq", "seed": seed})
+        rep.sample({"first_frame": len(f1), "second_frame": n2, "first_cut_points": [x for x in ks if x is not None]})
     elif kind == "send":
         n = shard[1]
         msg = bytes((i * 13 + 5) & 0xFF for i in range(n))
@@ -209,6 +261,9 @@ def replay(r):
             sc, ch = recv_scenario(fr, set(range(1, n))), [1] * (n + 2)
         else:
             sc, ch = recv_scenario(fr, None if n <= 64 else set(boundary_cuts(n))), r["choices"]
+    elif mode == "recvseq":
+        f1, f2 = frame(r["L1"], r.get("seed", 0) & 0xFF), frame(r["L"], (r.get("seed", 0) + 77) & 0xFF)
+        sc, ch = recvseq_scenario(f1, r["k"], f2, None if len(f2) <= 64 else set(boundary_cuts(len(f2)))), r["choices"]
     elif mode == "fault":
         fr = frame(r["L"], r.get("seed", 0) & 0xFF)
         n = len(fr)
